@@ -18,6 +18,7 @@ func init() {
 		Assumptions: []string{"proto.Clone returns a deep copy; proto.Merge(dst, src) deep-copies from src and writes only dst; fmutils.Filter/Prune and proto.Reset write only their message argument"},
 		Run:         runC07,
 		Controls: []Control{
+			{Name: "revert-F43-merge-filters-src-in-place", File: "pkg/masks/update.go", Old: "\tsrc = proto.Clone(src)\n", New: "", Expect: "R07.7"},
 			{Name: "gau-passes-old-as-dst", File: "pkg/resource/atomic.go", Old: "\tnewValue = proto.Clone(oldValue)\n", New: "\tnewValue = oldValue\n", Expect: "R07.2"},
 			{Name: "filterclone-filters-original", File: "pkg/masks/get.go", Old: "\tclone := proto.Clone(msg)\n\tfmutils.Filter(clone, r.fields.GetPaths())\n\treturn clone", New: "\tfmutils.Filter(msg, r.fields.GetPaths())\n\treturn msg", Expect: "R07.1"},
 			{Name: "interceptor-writes-old", File: "pkg/trait/enterleavesensorpb/model.go", Old: "\t\tvalueVal.EnterTotal = adjustTotal(valueVal.EnterTotal, currentVal.EnterTotal, valueVal.Direction == traits.EnterLeaveEvent_ENTER)", New: "\t\tcurrentVal.EnterTotal = adjustTotal(valueVal.EnterTotal, currentVal.EnterTotal, valueVal.Direction == traits.EnterLeaveEvent_ENTER)\n\t\tvalueVal.EnterTotal = currentVal.EnterTotal", Expect: "R07.1"},
@@ -224,6 +225,8 @@ func runC07(c *an.Ctx) {
 	c.Min("R07.1", 60)
 	c.Min("R07.2", 4)
 	c.Min("R07.3", 2)
+	r077(c)
+	c.Min("R07.7", 1)
 }
 
 // r072: the caller's message enters only by copy.
@@ -291,9 +294,25 @@ func r072(c *an.Ctx) {
 		dst, src := fn.Params[1], fn.Params[2]
 		merges := an.CallsTo(fn, "google.golang.org/protobuf/proto.Merge")
 		ok := len(merges) > 0
+		// the written message, or a clone of it (Merge filters a copy)
+		isSrc := func(v ssa.Value) bool {
+			for _, s0 := range an.Sources(v) {
+				if s0 == ssa.Value(src) {
+					return true
+				}
+				if cl, isCall := s0.(*ssa.Call); isCall && an.CalleeName(cl) == "google.golang.org/protobuf/proto.Clone" {
+					for _, s1 := range an.Sources(cl.Call.Args[0]) {
+						if s1 == ssa.Value(src) {
+							return true
+						}
+					}
+				}
+			}
+			return false
+		}
 		for _, m := range merges {
 			a := m.Common().Args
-			if a[0] != ssa.Value(dst) || a[1] != ssa.Value(src) {
+			if a[0] != ssa.Value(dst) || !isSrc(a[1]) {
 				ok = false
 			}
 		}
@@ -535,4 +554,26 @@ func r076(c *an.Ctx) {
 		})
 	}
 	c.Count("writes_with_modifying_interceptBefore", n)
+}
+
+// r077: a write never modifies the message it was given. FieldUpdater.Merge restricts the written message to the
+// writable fields and the update mask with filters that clear fields IN PLACE; applied to the caller's own message
+// they trim it, and - worse - prune whatever other message shares a sub-message with it (a model's preset that an
+// interceptor assigned into the written message, a stored item passed on as the value of another write), so a
+// message obtained from an earlier read changes because of a later write. The filters must run on a copy.
+func r077(c *an.Ctx) {
+	const rule = "R07.7"
+	fn := mustFunc(c, rule, "pkg/masks", "FieldUpdater", "Merge")
+	if fn == nil || len(fn.Params) != 3 {
+		return
+	}
+	w := an.NewMutWorld(c.Prog)
+	fs := w.AnalyseParams(fn, fn.Params[2])
+	c.SawFunc(an.FuncName(fn))
+	pos := fn.Pos()
+	if len(fs) > 0 {
+		pos = fs[0].Instr.Pos()
+	}
+	c.Check(len(fs) == 0, rule, "(*pkg/masks.FieldUpdater).Merge|the written message is only read", pos, "no mutator reaches src",
+		"Merge modifies the message being written ("+describeFindings(c, fs)+"): a masked or writable-field-restricted write trims the caller's message and prunes every message that shares a sub-message with it - e.g. lightpb's preset (assigned into the written Brightness by the model) loses its title after UpdateBrightness(…, WithUpdatePaths(\"preset.name\")), so what DescribeBrightness returned earlier changes because of a later write")
 }
